@@ -2,6 +2,7 @@ package c07
 
 import (
 	"fmt"
+	"path/filepath"
 	"strings"
 
 	"lcverif/common"
@@ -311,6 +312,22 @@ func genRefused(r *rng.R, idx int) MemberSpec {
 // multiply linked (a second unstaged name, or a staged hard link); every entry is an
 // independent copy and may carry its own mod=/uid=/gid=.  Names sort before and after the
 // source's name.
+// recoverable: RecoverMissingLinks looks into the directory of this name (defaults.DoNotTraverse
+// names the trees and directory names it stays out of) and the hop names still fit NAME_MAX
+func recoverable(name string) bool {
+	for _, p := range []string{"/boot", "/dev", "/home", "/media", "/mnt", "/proc", "/run", "/usr/portage", "/sys", "/var/db"} {
+		if name == p || strings.HasPrefix(name, p+"/") {
+			return false
+		}
+	}
+	for _, c := range strings.Split(name, "/") {
+		if c == "cache" || c == "tmp" {
+			return false
+		}
+	}
+	return len(filepath.Base(name)) < 200
+}
+
 func genSrcGroup(r *rng.R, in *Input, seen map[string]bool) {
 	dirs := []string{"/bin", "/etc", "/opt/t", "/usr/local/lib", "/home/u", "/sbin"}
 	prefixes := []string{"0a", "A", "plainsu", "su", "su.copy", "zz", "~z"}
@@ -394,6 +411,20 @@ func genInput(r *rng.R, i int, tier string) Input {
 				if k != lead && r.Chance(2, 3) {
 					in.Members[k].Obj.LinkTo = lead
 				}
+			}
+		}
+	}
+	// a symbolic link nobody owns that reaches a staged file through two more links (eselect style)
+	if r.Chance(1, 3) {
+		for _, t := range in.Members {
+			if t.How == "pkg" && t.Obj.Kind == "reg" && t.Src == "" && !seen[string(t.Name)+".lnk"] &&
+				!strings.ContainsAny(string(t.Name), " \t\n*\\\"'") && recoverable(string(t.Name)) {
+				n := string(t.Name) + ".lnk"
+				seen[n] = true
+				o := genObj(r, "symlink")
+				o.Target = B(filepath.Base(n) + ".hop1")
+				in.Members = append(in.Members, MemberSpec{Name: B(n), How: "recovered", Via: t.Name, Obj: o})
+				break
 			}
 		}
 	}
